@@ -80,6 +80,29 @@ got = get_derived_unit(reg, %r)
 print(got, exp)
 sys.exit(0 if abs(got / exp - 1) < 1e-12 else 1)
 ''' % (exps, BASES, key)))
+    # history: the same registry dict is edited in place (a scan over base units) - derived units must follow
+    reg["length"] = Real("u_length2")
+    reg["time"] = Real("u_time2")
+    assum += [reg["length"].t > 0, reg["time"].t > 0]
+    for key in ("concentration", "energy", "diffusivity", "density", "doserate", "radiolytic_yield"):
+        ob += 1
+        s = z3.Solver()
+        s.set("timeout", 20000)
+        s.add(*assum)
+        s.add(z3.Not(eq_term(get_derived_unit(reg, key), monomial(reg, SI[key]))))
+        q += 1
+        if str(s.check()) == "unsat":
+            di += 1
+        else:
+            viol.append(dict(key="derived:stale:%s" % key, desc="get_derived_unit(reg, %r) does not follow an in-place change of the registry" % key, replay_src='''
+from chempy.units import get_derived_unit
+reg = dict(length=2.0, mass=3.0, time=5.0, current=7.0, temperature=11.0, luminous_intensity=13.0, amount=17.0)
+first = get_derived_unit(reg, "concentration")
+reg["length"] = 4.0
+second = get_derived_unit(reg, "concentration")
+print(first, second)
+sys.exit(0 if abs(second / (17.0 / 4.0 ** 3) - 1) < 1e-12 else 1)
+'''))
     s = z3.Solver()
     s.add(*assum)
     s.add(z3.Not(eq_term(get_derived_unit(reg, "energy"), monomial(reg, (2, 1, -1, 0, 0, 0)))))
